@@ -3118,4 +3118,84 @@ theorem callFull_outputs {es : List Exp} {c : Call} (k : Nat) (buf : List UInt8)
     have e2 : copyOutputs x b0 = copyOutputs (xn.bump k) b0 := by rw [copyOutputs_bump, ← hxn, copyOutputs_norm]
     rw [e1, e2, hyn]
 
+/-! ### the per-scope functions the driver uses compose to `callFull` -/
+
+theorem cs_eta (cs : CS) (h : cs.fail = none) : ({ es := cs.es, call := cs.call, fail := none } : CS) = cs := by
+  cases cs; simp_all
+
+/-- the steps of a call statement on a scope are `segsFrom` on the scope's expectation list -/
+theorem segsLoop_eq (buf : List UInt8) : ∀ (segs : List Seg) (sc : Scope) (c : ACall), sc.last = some c →
+    segsLoop sc buf segs =
+      ({ sc with es := (segsFrom { es := sc.es, call := c, fail := none } buf segs).es,
+                 last := some (segsFrom { es := sc.es, call := c, fail := none } buf segs).call },
+       (segsFrom { es := sc.es, call := c, fail := none } buf segs).fail)
+  | [], sc, c, hl => by
+    simp only [segsLoop, segsFrom]
+    cases sc; simp_all
+  | s :: rest, sc, c, hl => by
+    simp only [segsLoop, Scope.seg, hl, segsFrom, Option.isSome_none, Bool.false_eq_true, if_false]
+    cases hf : (applySeg { es := sc.es, call := c, fail := none } buf s).fail with
+    | some f =>
+      have hne : (applySeg { es := sc.es, call := c, fail := none } buf s).fail ≠ none := by rw [hf]; simp
+      rw [segsFrom_failed _ _ _ hne, hf]
+    | none =>
+      simp only
+      have ih := segsLoop_eq buf rest
+        { sc with es := (applySeg { es := sc.es, call := c, fail := none } buf s).es,
+                  last := some (applySeg { es := sc.es, call := c, fail := none } buf s).call }
+        (applySeg { es := sc.es, call := c, fail := none } buf s).call rfl
+      rw [ih]
+      simp only [cs_eta _ hf]
+
+/-- **glue.** On a scope without a call in flight (enabled, the function not ignored) a call
+    statement that is finished right away reports exactly `callFull`'s failure, and — when it does
+    not fail — leaves exactly `callFull`'s expectation list. -/
+theorem scope_callNow_is_callFull (sc : Scope) (fn : String) (segs : List Seg) (buf : List UInt8)
+    (hlast : sc.last = none) (hen : sc.enabled = true) (hioc : sc.ioc = false) :
+    (sc.callNow fn segs buf).2 = (callFull sc.es (sc.actualOrder + 1) (sc.fullName fn) segs buf).fail ∧
+    ((sc.callNow fn segs buf).2 = none →
+      (sc.callNow fn segs buf).1.es = (callFull sc.es (sc.actualOrder + 1) (sc.fullName fn) segs buf).es ∧
+      (sc.callNow fn segs buf).1.actualOrder = sc.actualOrder + 1) := by
+  have hact : sc.actualCall fn =
+      { sc := { sc with es := (withName { es := beginCall sc.es, call := newCall (sc.actualOrder + 1), fail := none } (sc.fullName fn)).es,
+                        actualOrder := sc.actualOrder + 1,
+                        last := some (withName { es := beginCall sc.es, call := newCall (sc.actualOrder + 1), fail := none } (sc.fullName fn)).call },
+        fail := (withName { es := beginCall sc.es, call := newCall (sc.actualOrder + 1), fail := none } (sc.fullName fn)).fail,
+        ignored := false } := by
+    unfold Scope.actualCall Scope.checkLast
+    simp only [hlast, hen, hioc]
+    cases sc; simp_all
+  unfold Scope.callNow callFull
+  rw [hact]
+  simp only
+  cases hw : (withName { es := beginCall sc.es, call := newCall (sc.actualOrder + 1), fail := none } (sc.fullName fn)).fail with
+  | some f =>
+    have hne : (withName { es := beginCall sc.es, call := newCall (sc.actualOrder + 1), fail := none } (sc.fullName fn)).fail ≠ none := by
+      rw [hw]; simp
+    simp only
+    rw [segsFrom_failed _ _ _ hne, callCheck_fail_some _ f hw]
+    exact ⟨rfl, fun h => by cases h⟩
+  | none =>
+    simp only
+    rw [segsLoop_eq buf segs _ _ rfl]
+    simp only [cs_eta _ hw]
+    cases hs : (segsFrom (withName { es := beginCall sc.es, call := newCall (sc.actualOrder + 1), fail := none } (sc.fullName fn)) buf segs).fail with
+    | some f =>
+      simp only
+      rw [callCheck_fail_some _ f hs]
+      exact ⟨rfl, fun h => by cases h⟩
+    | none =>
+      simp only [Scope.checkLast, cs_eta _ hs]
+      exact ⟨by first | rfl | trivial, fun _ => ⟨by first | rfl | trivial, by first | rfl | trivial⟩⟩
+
+/-- `MockSupport::checkExpectations` on a world that is just the global mock, with no call in
+    flight, is `endCheck` of its expectation list -/
+theorem world_check_is_endCheck (sc : Scope) (hname : sc.name = "") (hlast : sc.last = none) :
+    (World.check { glob := sc, subs := [] } "").2 = endCheck sc.es := by
+  simp [World.check, World.touch, World.covered, checkLasts, Scope.checkLast, hlast, endCheck,
+    Scope.hasUnfulfilled, Scope.hasOutOfOrder, World.putAll, World.put, hname]
+  split
+  · simp_all
+  · split <;> simp_all
+
 end Mock
